@@ -119,6 +119,21 @@ type c07Op struct {
 	needsXfer bool
 	// repeatedInput: the many-inputs transfer names the same input address twice
 	repeatedInput bool
+	// maxRepeat: how often the most repeated sender is named in an accept / decline
+	maxRepeat int
+	to        sdk.AccAddress
+}
+
+func maxRepeat(as []sdk.AccAddress) int {
+	n := map[string]int{}
+	m := 0
+	for _, a := range as {
+		n[string(a)]++
+		if n[string(a)] > m {
+			m = n[string(a)]
+		}
+	}
+	return m
 }
 
 // lacksXfer: the sender may not move some restricted coin among cs.
@@ -133,13 +148,13 @@ func (e *c07Env) lacksXfer(from sdk.AccAddress, cs sdk.Coins) bool {
 
 func (e *c07Env) acceptOp(to sdk.AccAddress, froms []sdk.AccAddress, perm bool) c07Op {
 	msg := &quarantine.MsgAccept{ToAddress: to.String(), FromAddresses: strs(froms), Permanent: perm}
-	return c07Op{kind: "accept", term: "OAccept " + e.pos(to) + " " + e.posList(froms) + " " + coqBool(perm),
+	return c07Op{kind: "accept", maxRepeat: maxRepeat(froms), to: to, term: "OAccept " + e.pos(to) + " " + e.posList(froms) + " " + coqBool(perm),
 		desc: fmt.Sprintf("accept %s<%s perm=%v", e.short([]sdk.AccAddress{to}), e.short(froms), perm), run: e.viaRouter(msg)}
 }
 
 func (e *c07Env) declineOp(to sdk.AccAddress, froms []sdk.AccAddress, perm bool) c07Op {
 	msg := &quarantine.MsgDecline{ToAddress: to.String(), FromAddresses: strs(froms), Permanent: perm}
-	return c07Op{kind: "decline", term: "ODecline " + e.pos(to) + " " + e.posList(froms) + " " + coqBool(perm),
+	return c07Op{kind: "decline", maxRepeat: maxRepeat(froms), to: to, term: "ODecline " + e.pos(to) + " " + e.posList(froms) + " " + coqBool(perm),
 		desc: fmt.Sprintf("decline %s<%s perm=%v", e.short([]sdk.AccAddress{to}), e.short(froms), perm), run: e.viaRouter(msg)}
 }
 
@@ -450,6 +465,27 @@ func TestC07(t *testing.T) {
 			descs = append(descs, okMark+op.desc)
 			w.Count("op_" + op.kind)
 			totalOps++
+			if op.maxRepeat >= 3 {
+				w.Count(op.kind + "_naming_a_sender_3_to_5_times")
+				if op.kind == "accept" && err == nil && len(after) < len(before) {
+					w.Count("accept_naming_a_sender_3_to_5_times_paid_out")
+					// another receiver still has funds pending in a denom that was just released
+					for _, rec := range after {
+						if !rec.to.Equals(op.to) && !rel.IsZero() {
+							shared := false
+							for _, c := range rec.coins {
+								if rel.AmountOf(c.Denom).IsPositive() {
+									shared = true
+								}
+							}
+							if shared {
+								w.Count("accept_naming_a_sender_3_to_5_times_paid_out_while_other_receiver_pending_same_denom")
+								break
+							}
+						}
+					}
+				}
+			}
 			if op.repeatedInput {
 				w.Count("multi_in_repeated_input_address")
 				if err == nil {
@@ -576,6 +612,21 @@ func genC07Op(e *c07Env, r *rand.Rand, ctx sdk.Context, players, people []sdk.Ac
 			froms = append(froms, stranger) // unknown sender
 		case 2:
 			froms = append(froms, pick(players))
+		case 3: // one sender named 3..5 times, mixed with the others (ValidateBasic allows repeats)
+			if len(froms) > 0 {
+				f := froms[r.Intn(len(froms))]
+				for n := 2 + r.Intn(3); n > 0; n-- {
+					froms = append(froms, f)
+				}
+			}
+		case 4: // one sender named 3..5 times, alone
+			if len(froms) > 0 {
+				f := froms[r.Intn(len(froms))]
+				froms = nil
+				for n := 3 + r.Intn(3); n > 0; n-- {
+					froms = append(froms, f)
+				}
+			}
 		}
 		r.Shuffle(len(froms), func(i, j int) { froms[i], froms[j] = froms[j], froms[i] })
 		return to, froms
